@@ -1,6 +1,6 @@
 // C17 — writing then reading (formatting then parsing) gives back the same data
 // VF-VARIANT: san
-// VF-RULE: E2, one space per clause: (numbers) every string of length <= L over {0,1,9,.,-,+,e,E,space} against a reference recogniser for the strict decimal grammar and strtod/exact integer values; (format) toString(x,17)->toDouble for +-m*2^e, m in 6 mantissa patterns, every exponent -1074..1023, and toString(i)->toInt for every 17-bit int and the int32 boundaries; (tokenisers) every string of length <= L over {a,b,",",space,(,),=} x delimiter set x solid x allowEmptyTokens, re-join with the recorded splits at every cursor position; nested tokeniser on every bracket-balanced string against a depth-0 splitter; (key-values) every procedure rendered from a name and an argument map, parsed back, and every changeKeyvals substitution; (wildcards) every pattern over {a,b,*} against every name over {a,b} of length <= 5 for the three matchers vs a DP glob matcher; (variables) every map over keys {a,b,c} with values from words over {x,$(a),$(b),$(c)}; (tables) every table over cells {x,y,1} up to 3x3 and every shape up to 6x6 with distinct cells x name options x separator; (distributions) every family and nested compound x class counts 1..8 x a parameter lattice, written then read. A case is non-trivial when the datum is non-empty / the string belongs to the grammar / the table has >= 2 cells.
+// VF-RULE: E2, one space per clause: (numbers) every string of length <= L over {0,1,9,.,-,+,e,E,space} against a reference recogniser for the strict decimal grammar and strtod/exact integer values; (format) toString(x,17)->toDouble for +-m*2^e, m in 6 mantissa patterns, every exponent -1074..1023, and toString(i)->toInt for every 17-bit int and the int32 boundaries; (tokenisers) every string of length <= L over {a,b,",",space,(,),=} x delimiter set x solid x allowEmptyTokens, re-join with the recorded splits at every cursor position; nested tokeniser on every bracket-balanced string against a depth-0 splitter; (key-values) every procedure rendered from a name and an argument map, parsed back, and every changeKeyvals substitution; (wildcards) every pattern over {a,b,*} against every name over {a,b} of length <= 5 for the three matchers vs a DP glob matcher; (variables) every map over keys {a,b,c} with values from words over {x,$(a),$(b),$(c)}; (tables) every table over cells {x,y,1} up to 3x3 and every shape up to 6x6 with distinct cells x name options x separator; (distributions) every family and nested compound x class counts 1..8 x a parameter lattice, and every mixture of an ordered pair of 12 components (two per family, so the same family next to itself with different parameters is included) plain, under an invariant class and inside another mixture, and of every ordered triple of 6 components, written then read. A case is non-trivial when the datum is non-empty / the string belongs to the grammar / the table has >= 2 cells.
 // VF-BOUND: all finite doubles -> 6 mantissa patterns x all 2098 binary exponents x sign; all ints -> [-2^16,2^16] and the int32 boundaries; strings of length <= 24 -> all strings of length <= 5|6 (numbers) and <= 5|7 (tokenisers) over 7..9 characters; argument maps over 4|6 keys and 4 values (nested one level); patterns of length <= 6|8; tables up to 3x3 over 3 cell values and every shape to 6x6; distribution parameters on a lattice of 2-4 values per parameter
 // VF-LEVEL: bounded-exhaustive comparison of the real code with reference models written for the harness (recogniser, splitter, glob matcher, substitution, table and distribution equality); no sampling
 // VF-ASSUME: strtod of the C library is correctly rounded and gives the value of a decimal literal;; the reference recogniser implements the most permissive strict reading -?(D+(.D*)?|.D+)(e[+-]?D+)? for numbers and -?D+(e+?D+)? for integers with the configured decimal/exponent characters;; variable resolution that uses more than 0.05 s of CPU time does not terminate (terminating cases take microseconds)
@@ -533,6 +533,31 @@ static vector<DistSpec> distSpecs() {
     v.push_back({"Mixture(0.5*Constant(2)+0.5*Beta(n=" + vf::str(n) + ",2,3))", [=] { vector<DP> ds; ds.emplace_back(new ConstantDistribution(2.)); ds.emplace_back(new BetaDiscreteDistribution(n, 2., 3.)); return DP(new MixtureOfDiscreteDistributions(ds, {0.5, 0.5})); }});
   }
   for (double x : {0., 1., 2.5, -3.}) v.push_back({"Constant(" + vf::str(x) + ")", [=] { return DP(new ConstantDistribution(x)); }});
+  // mixtures of every ordered pair / triple of components from a list with two members per family (same family next to each other with
+  // different parameters included), plain, under an invariant class and inside another mixture
+  {
+    struct Leaf { string label; std::function<DP()> make; };
+    vector<Leaf> lf = {
+      {"Gamma(n=2,0.5,0.5)", [] { return DP(new GammaDiscreteDistribution(2, 0.5, 0.5)); }}, {"Gamma(n=2,4,2)", [] { return DP(new GammaDiscreteDistribution(2, 4., 2.)); }},
+      {"Constant(1)", [] { return DP(new ConstantDistribution(1.)); }}, {"Constant(3)", [] { return DP(new ConstantDistribution(3.)); }},
+      {"Beta(n=2,2,3)", [] { return DP(new BetaDiscreteDistribution(2, 2., 3.)); }}, {"Beta(n=3,0.5,2)", [] { return DP(new BetaDiscreteDistribution(3, 0.5, 2.)); }},
+      {"Exponential(n=2,1)", [] { return DP(new ExponentialDiscreteDistribution(2, 1.)); }}, {"Exponential(n=2,4)", [] { return DP(new ExponentialDiscreteDistribution(2, 4.)); }},
+      {"Gaussian(n=2,0,1)", [] { return DP(new GaussianDiscreteDistribution(2, 0., 1.)); }}, {"Gaussian(n=2,2.5,0.5)", [] { return DP(new GaussianDiscreteDistribution(2, 2.5, 0.5)); }},
+      {"Simple({0.5,1.5},{0.25,0.75})", [] { return DP(new SimpleDiscreteDistribution(vector<double>{0.5, 1.5}, vector<double>{0.25, 0.75})); }}, {"Simple({2,7},{0.5,0.5})", [] { return DP(new SimpleDiscreteDistribution(vector<double>{2., 7.}, vector<double>{0.5, 0.5})); }},
+    };
+    size_t K = lf.size();
+    for (size_t a = 0; a < K; ++a) for (size_t b = 0; b < K; ++b) {
+      Leaf A = lf[a], B = lf[b];
+      auto mk = [A, B] { vector<DP> ds; ds.push_back(A.make()); ds.push_back(B.make()); return DP(new MixtureOfDiscreteDistributions(ds, {0.25, 0.75})); };
+      v.push_back({"Mixture(0.25*" + A.label + "+0.75*" + B.label + ")", mk});
+      v.push_back({"Invariant(Mixture(0.25*" + A.label + "+0.75*" + B.label + "),p=0.125)", [mk] { return DP(new InvariantMixedDiscreteDistribution(mk(), 0.125, 0.000001)); }});
+      v.push_back({"Mixture(0.5*Mixture(0.25*" + A.label + "+0.75*" + B.label + ")+0.5*" + B.label + ")", [mk, B] { vector<DP> ds; ds.push_back(mk()); ds.push_back(B.make()); return DP(new MixtureOfDiscreteDistributions(ds, {0.5, 0.5})); }});
+    }
+    for (size_t a = 0; a < 6; ++a) for (size_t b = 0; b < 6; ++b) for (size_t d = 0; d < 6; ++d) {
+      Leaf A = lf[a], B = lf[b], D = lf[d];
+      v.push_back({"Mixture(0.25*" + A.label + "+0.25*" + B.label + "+0.5*" + D.label + ")", [A, B, D] { vector<DP> ds; ds.push_back(A.make()); ds.push_back(B.make()); ds.push_back(D.make()); return DP(new MixtureOfDiscreteDistributions(ds, {0.25, 0.25, 0.5})); }});
+    }
+  }
   return v;
 }
 static void distSpace(vf::Runner& R) {
@@ -605,6 +630,7 @@ int main(int argc, char** argv) {
   R.note("nested tokeniser: judged on bracket-balanced inputs only, against a splitter that cuts at delimiter characters met at bracket depth 0 and drops empty pieces");
   R.note("variables: termination is judged by a CPU-time watchdog (0.05 s; a non-terminating case appears as crash|AttributesTools::resolveVariables|exit97); value equality with full substitution only for acyclic maps whose references are all defined");
   R.note("tables: written with DataTable::write(ostream) and read with header = (column names present), rowNames=-1; tables whose text has fewer than two lines are outside the clause");
+  R.note("mixture components are chosen so that no two class values of different components coincide to rounding (a symmetric Beta's middle class next to a Simple value 0.5 merges or not depending on the last bit; such ties are not judged)");
   R.note("distributions: values printed with 6 decimals (Simple/Mixture values and probabilities) are exact on the lattice; parameters are printed with 12 decimals (one lattice value, alpha=0.1234567891, needs 10); tolerance 1e-9 on class values (relative, floor absolute) and probabilities for the parameter-driven families and 1e-6 (the printed precision) for Simple and Mixture; the description language has no field for the value of the invariant class, the reader uses 1e-6, so Invariant objects are built with that value");
   return R.finish();
 }
